@@ -86,7 +86,7 @@ def main():
         funcs = contracted()
         for key in sorted(funcs):
             props = sorted(p for p in funcs[key] if not want or p in want)
-            if not props or 'C02' in props:
+            if not props or ('C02' in props and not want):
                 continue
             loc = find_func(repo, key)
             if not loc:
